@@ -1,9 +1,9 @@
 SPECIFICATION Spec
 CONSTANTS
-  MaxWords = 5
-  MaxFields = 3
-  MaxMut = 1
-  BuildTags = {1, 4, 5, 10, 14, 17, 18}
+  MaxWords = 1
+  MaxFields = 2
+  MaxMut = 2
+  BuildTags = {1, 4, 14, 18}
   BuildLens = {0, 1, 2}
 ACTION_CONSTRAINT Emit
 INVARIANTS Exact Canonical RoundTrip BuilderOrdered
